@@ -25,77 +25,7 @@ def run(ctx):
     C = RS.nested_classes.get('context')
     ctx.require(C is not None, 'RemoteState.context not found')
     smod = P.module('_remote_pickle.state')
-    # ---------------------------------------------------------------- R1 per-thread state
-    holder = None
-    for k, v in RS.class_attrs.items():
-        if isinstance(v, ast.Call) and (dotted(v.func) or '') == 'threading.local':
-            holder = k
-    any_holder = [k for k in RS.class_attrs if 'active' in k or 'context' in k.lower()]
-    ctx.check('R1', 'the restore state lives in a threading.local()', holder is not None, 'RemoteState', 'state-not-thread-local:' + ','.join(
-        f'{k}={norm(RS.class_attrs[k])}' for k in any_holder), 'the restore stack is not per-thread: concurrent loads on several threads corrupt each other\'s frames',
-        where=smod.relpath)
-    holder = holder or (any_holder[0] if any_holder else '_active_contexts')
-    # fields read anywhere in the module (excluding reads inside raise statements)
-    reads, writes = {}, {}
-    for f in P.funcs.values():
-        if f.module is not smod:
-            continue
-        ctx.used(f)
-        pm = parent_map(f.node)
-        for a in walk_local(f.node):
-            if isinstance(a, ast.Attribute) and isinstance(a.value, ast.Attribute) and a.value.attr == holder:
-                in_raise = False
-                cur = a
-                while cur in pm:
-                    cur = pm[cur]
-                    if isinstance(cur, ast.Raise):
-                        in_raise = True
-                if isinstance(a.ctx, ast.Load):
-                    if in_raise:
-                        ctx.note(f'{f.short}: `{norm(a)}` is only read to build the message of a raise (field never assigned) - observation')
-                        continue
-                    reads.setdefault(a.attr, (f, a))
-                elif isinstance(a.ctx, ast.Store):
-                    writes.setdefault(a.attr, []).append((f, a))
-    init = C.methods.get('__init__')
-    ctx.require(init is not None, 'RemoteState.context.__init__ not found')
-    uncond = set()
-    for st in init.node.body:
-        if isinstance(st, ast.Assign):
-            for t in st.targets:
-                if isinstance(t, ast.Attribute) and isinstance(t.value, ast.Attribute) and t.value.attr == holder:
-                    uncond.add(t.attr)
-    ctx.floor('per-thread fields read during a load', len(reads), 3)
-    for field, (f, a) in sorted(reads.items()):
-        ctx.check('R1', f'field `{field}` (read by {f.short}) is unconditionally initialised when a load is entered', field in uncond, 'RemoteState.context.__init__',
-                  f'field-not-reinitialised:{field}', f'the per-thread field `{field}` is read during a load but not unconditionally (re)assigned when a load begins: '
-                  'after a load that failed part-way the next loads() on the same thread starts from the residue', where=loc(f, a))
-    # stated beliefs about the per-thread state at the start of a load must hold on every history (Engler-style contradiction):
-    # `assert not hasattr(state, F)` is contradicted if F is assigned by a load and not deleted on every exit of the context
-    ex = C.methods.get('__exit__')
-    for st in init.node.body:
-        if isinstance(st, ast.Assert):
-            t = st.test
-            if isinstance(t, ast.UnaryOp) and isinstance(t.op, ast.Not) and isinstance(t.operand, ast.Call) and is_name(t.operand.func, 'hasattr') and len(t.operand.args) == 2 \
-                    and isinstance(t.operand.args[1], ast.Constant) and holder in norm(t.operand.args[0]):
-                field = t.operand.args[1].value
-                if field not in writes:
-                    ctx.ob('R1', f'belief `{norm(st.test)}`: the field is never assigned - vacuously true', True)
-                    continue
-                okb = False
-                if ex is not None:
-                    gx = ctx.an.cfg(ex, C)
-                    dels = {n.id for n in gx.nodes if n.stmt is not None and isinstance(n.stmt, ast.Delete) and any(
-                        isinstance(x, ast.Attribute) and x.attr == field for x in n.stmt.targets)}
-                    px = gx.find_path([gx.entry], lambda n: n is gx.exit, edge_ok=is_flow, node_ok=lambda n: n.id not in dels)
-                    okb = bool(dels) and px is None
-                ctx.check('R1', f'belief `{norm(st.test)}` at the start of a load holds on every history', okb, 'RemoteState.context.__init__', f'belief-contradicted:hasattr:{field}',
-                          f'a load asserts that the per-thread field `{field}` does not exist when it starts, but the field is only removed when the previous load succeeded: '
-                          'after one loads() that raised part-way every later loads() on that thread fails with AssertionError', where=loc(init, st))
-    # nothing outside the state module touches the holder
-    foreign = [(f, a) for f in P.funcs.values() if f.module is not smod for a in ast.walk(f.node) if isinstance(a, ast.Attribute) and a.attr == holder]
-    ctx.check('R1', 'only the state module touches the per-thread state', not foreign, foreign[0][0].short if foreign else 'RemoteState', 'foreign-state-access',
-              'code outside _remote_pickle/state.py manipulates the restore stack', where=loc(*foreign[0]) if foreign else None)
+    holder = check_residue(ctx, 'R1')
     # __enter__ pushes the caller's patches as the top frame; __exit__ removes the stack
     en = C.methods.get('__enter__')
     ok = en is not None and any(last_attr(c) == 'append' and norm(c.func.value).endswith('.stack') and 'self' in names_in(c.args[0]) for c in calls_in(en.node))
@@ -303,4 +233,86 @@ def check_write_back(ctx, RS, cr):
               f'child_restored can return without writing the restored child back although break_patches pushed a real frame for it: the test(s) {tests} are not implied by '
               '"the frame is real" (a dict patch may be empty) - the producer tests the type, the consumer the truth value; for a patch {name: {}} the parent then overwrites the child with {}',
               where=loc(cr, cr.node), path=path_str(p or []))
+
+def check_residue(ctx, rule):
+    """the per-thread restore state: a threading.local whose every field that a load reads is unconditionally re-initialised when a load is entered,
+    whose entry beliefs hold on every history, and which only the state module touches - so a load that failed part-way (a client that died inside the
+    control handshake, a raising __setstate__) cannot influence the next one on that thread"""
+    P = ctx.prog
+    RS = P.cls('RemoteState')
+    C = RS.nested_classes.get('context')
+    ctx.require(C is not None, 'RemoteState.context not found')
+    smod = P.module('_remote_pickle.state')
+    # ---------------------------------------------------------------- R1 per-thread state
+    holder = None
+    for k, v in RS.class_attrs.items():
+        if isinstance(v, ast.Call) and (dotted(v.func) or '') == 'threading.local':
+            holder = k
+    any_holder = [k for k in RS.class_attrs if 'active' in k or 'context' in k.lower()]
+    ctx.check(rule, 'the restore state lives in a threading.local()', holder is not None, 'RemoteState', 'state-not-thread-local:' + ','.join(
+        f'{k}={norm(RS.class_attrs[k])}' for k in any_holder), 'the restore stack is not per-thread: concurrent loads on several threads corrupt each other\'s frames',
+        where=smod.relpath)
+    holder = holder or (any_holder[0] if any_holder else '_active_contexts')
+    # fields read anywhere in the module (excluding reads inside raise statements)
+    reads, writes = {}, {}
+    for f in P.funcs.values():
+        if f.module is not smod:
+            continue
+        ctx.used(f)
+        pm = parent_map(f.node)
+        for a in walk_local(f.node):
+            if isinstance(a, ast.Attribute) and isinstance(a.value, ast.Attribute) and a.value.attr == holder:
+                in_raise = False
+                cur = a
+                while cur in pm:
+                    cur = pm[cur]
+                    if isinstance(cur, ast.Raise):
+                        in_raise = True
+                if isinstance(a.ctx, ast.Load):
+                    if in_raise:
+                        ctx.note(f'{f.short}: `{norm(a)}` is only read to build the message of a raise (field never assigned) - observation')
+                        continue
+                    reads.setdefault(a.attr, (f, a))
+                elif isinstance(a.ctx, ast.Store):
+                    writes.setdefault(a.attr, []).append((f, a))
+    init = C.methods.get('__init__')
+    ctx.require(init is not None, 'RemoteState.context.__init__ not found')
+    uncond = set()
+    for st in init.node.body:
+        if isinstance(st, ast.Assign):
+            for t in st.targets:
+                if isinstance(t, ast.Attribute) and isinstance(t.value, ast.Attribute) and t.value.attr == holder:
+                    uncond.add(t.attr)
+    ctx.floor('per-thread fields read during a load', len(reads), 3)
+    for field, (f, a) in sorted(reads.items()):
+        ctx.check(rule, f'field `{field}` (read by {f.short}) is unconditionally initialised when a load is entered', field in uncond, 'RemoteState.context.__init__',
+                  f'field-not-reinitialised:{field}', f'the per-thread field `{field}` is read during a load but not unconditionally (re)assigned when a load begins: '
+                  'after a load that failed part-way the next loads() on the same thread starts from the residue', where=loc(f, a))
+    # stated beliefs about the per-thread state at the start of a load must hold on every history (Engler-style contradiction):
+    # `assert not hasattr(state, F)` is contradicted if F is assigned by a load and not deleted on every exit of the context
+    ex = C.methods.get('__exit__')
+    for st in init.node.body:
+        if isinstance(st, ast.Assert):
+            t = st.test
+            if isinstance(t, ast.UnaryOp) and isinstance(t.op, ast.Not) and isinstance(t.operand, ast.Call) and is_name(t.operand.func, 'hasattr') and len(t.operand.args) == 2 \
+                    and isinstance(t.operand.args[1], ast.Constant) and holder in norm(t.operand.args[0]):
+                field = t.operand.args[1].value
+                if field not in writes:
+                    ctx.ob(rule, f'belief `{norm(st.test)}`: the field is never assigned - vacuously true', True)
+                    continue
+                okb = False
+                if ex is not None:
+                    gx = ctx.an.cfg(ex, C)
+                    dels = {n.id for n in gx.nodes if n.stmt is not None and isinstance(n.stmt, ast.Delete) and any(
+                        isinstance(x, ast.Attribute) and x.attr == field for x in n.stmt.targets)}
+                    px = gx.find_path([gx.entry], lambda n: n is gx.exit, edge_ok=is_flow, node_ok=lambda n: n.id not in dels)
+                    okb = bool(dels) and px is None
+                ctx.check(rule, f'belief `{norm(st.test)}` at the start of a load holds on every history', okb, 'RemoteState.context.__init__', f'belief-contradicted:hasattr:{field}',
+                          f'a load asserts that the per-thread field `{field}` does not exist when it starts, but the field is only removed when the previous load succeeded: '
+                          'after one loads() that raised part-way every later loads() on that thread fails with AssertionError', where=loc(init, st))
+    # nothing outside the state module touches the holder
+    foreign = [(f, a) for f in P.funcs.values() if f.module is not smod for a in ast.walk(f.node) if isinstance(a, ast.Attribute) and a.attr == holder]
+    ctx.check(rule, 'only the state module touches the per-thread state', not foreign, foreign[0][0].short if foreign else 'RemoteState', 'foreign-state-access',
+              'code outside _remote_pickle/state.py manipulates the restore stack', where=loc(*foreign[0]) if foreign else None)
+    return holder
 
